@@ -233,7 +233,7 @@ func (x *Exec) constVal(cv constant.Value, ty *Ty) Val {
 		return Val{T: mk(fmt.Sprintf("#x%08x", uint32(n)), SBV32), Ty: ty}
 	case TFloat, TReal:
 		fv := constant.ToFloat(cv)
-		r := ratOfConst(fv)
+		r := simplestRat(ratOfConst(fv))
 		return Val{T: x.floatLit(RatLit(r)), Ty: ty}
 	case TOpaque:
 		// strings: opaque constant per distinct text
@@ -278,4 +278,40 @@ var tokOps = map[token.Token]string{
 	token.ADD_ASSIGN: "+", token.SUB_ASSIGN: "-", token.MUL_ASSIGN: "*", token.QUO_ASSIGN: "/", token.REM_ASSIGN: "%",
 	token.AND_ASSIGN: "&", token.OR_ASSIGN: "|", token.XOR_ASSIGN: "^", token.SHL_ASSIGN: "<<", token.SHR_ASSIGN: ">>",
 	token.AND_NOT_ASSIGN: "&^",
+}
+
+// simplestRat returns the rational with the smallest denominator that
+// rounds to the same float64 as r. Typed float constants such as 1/3.0 or
+// 1e-10 reach us already rounded to float64; in the real-arithmetic models
+// the constant the programmer wrote (1/3, 10^-10) is what is meant.
+func simplestRat(r *big.Rat) *big.Rat {
+	f, _ := r.Float64()
+	if r.IsInt() {
+		return r
+	}
+	// continued-fraction convergents of r
+	num := new(big.Int).Set(r.Num())
+	den := new(big.Int).Set(r.Denom())
+	neg := num.Sign() < 0
+	if neg {
+		num.Neg(num)
+	}
+	h0, h1 := big.NewInt(0), big.NewInt(1) // numerators
+	k0, k1 := big.NewInt(1), big.NewInt(0) // denominators
+	n, d := new(big.Int).Set(num), new(big.Int).Set(den)
+	for i := 0; i < 64 && d.Sign() != 0; i++ {
+		a, rem := new(big.Int).QuoRem(n, d, new(big.Int))
+		h2 := new(big.Int).Add(new(big.Int).Mul(a, h1), h0)
+		k2 := new(big.Int).Add(new(big.Int).Mul(a, k1), k0)
+		h0, h1, k0, k1 = h1, h2, k1, k2
+		c := new(big.Rat).SetFrac(h1, k1)
+		if neg {
+			c.Neg(c)
+		}
+		if g, _ := c.Float64(); g == f {
+			return c
+		}
+		n, d = d, rem
+	}
+	return r
 }
